@@ -1,0 +1,12 @@
+//go:build verif
+
+// Contracts for the deductive verifier in /verif (govc). Comment-only file.
+package example
+
+// ---------------------------------------------------------------- C02 / C19: operators registered as commutative
+// The optimizer regroups constant operands of an operator registered with isCommutative == true; that is only
+// unobservable if the implementation is commutative and associative. The package-level initialisers of boolParser
+// and minimal register their operators in the synthetic function `init`.
+
+//@ flags init
+//@   property C02, C19
